@@ -551,73 +551,6 @@ private def cLength : Sym := Sym.ofBytes [108, 101, 110, 103, 116, 104]
 private def cDepth : Sym := Sym.ofBytes [100, 101, 112, 116, 104]
 private def db0 : Db := ⟨[], [], []⟩
 
-/-- `FixedArray(3, [1, 2, 3], 'm')` -/
-example : runRoute Gen.poscDb (.init .none 3 (.valFirst (some (.sized ⟨.list, [1, 2, 3]⟩)) (some uM) none))
-    = .ok ⟨.none, ⟨3, ⟨.list, [1, 2, 3]⟩, .simple cLength uM⟩⟩ := by decide +kernel
-
-/-- `FixedArray(3, [1, 2], 'm')`, `FixedArray(1, [1], 'm')`: `ValueError` -/
-example : runRoute Gen.poscDb (.init .none 3 (.valFirst (some (.sized ⟨.list, [1, 2]⟩)) (some uM) none))
-    = .error .value := by decide +kernel
-example : runRoute Gen.poscDb (.init .none 1 (.valFirst (some (.sized ⟨.list, [1]⟩)) (some uM) none))
-    = .error .value := by decide +kernel
-
-/-- `FixedArray(2, 'depth')`: the default value `[0.0, 0.0]` in the default unit of the category -/
-example : (runRoute Gen.poscDb (.init .none 2 (.catFirst (.str cDepth) none none))).toOption.map (·.st.vals)
-    = some ⟨.list, [0, 0]⟩ := by decide +kernel
-
-/-- `CreateWithQuantity` on the base class takes the dimension from the values; a subclass pinning 3
-rejects two values; one value is rejected everywhere; the hypotheses of `internalCreate_spec` hold -/
-example : runRoute db0 (.cwq .none .empty (some (.sized ⟨.tuple, [1, 2]⟩)) none none)
-    = .ok ⟨.none, ⟨2, ⟨.tuple, [1, 2]⟩, .empty⟩⟩ := by decide +kernel
-example : runRoute db0 (.cwq (.val 3) .empty (some (.sized ⟨.tuple, [1, 2]⟩)) none none) = .error .value := by
-  decide +kernel
-example : runRoute db0 (.cwq .none .empty (some (.sized ⟨.tuple, [1]⟩)) none none) = .error .value := by
-  decide +kernel
-example : runRoute db0 (.cea .none 1 none) = .error .value := by decide +kernel
-example : mergeValue none (some (.sized ⟨.list, [1, 2]⟩)) = .ok (.sized ⟨.list, [1, 2]⟩) := by decide +kernel
-example : accepts (lookupDim (.val 3) none) (some 3) 3 = true ∧ accepts (lookupDim .none none) (some 3) 2 = false := by
-  decide
-
-/-- a class without the attribute and no keyword: `AttributeError`, not `ValueError` (why
-`internalCreate_spec` needs its second hypothesis) -/
-example : runRoute db0 (.internal .missing none .empty (some (.sized ⟨.list, [1, 2]⟩)) none none)
-    = .error .other := by decide +kernel
-
-/-- a chain: build `[1, 2, 3] m`; `ChangingIndex(-1, Scalar(50 cm))` with `use_value_unit`; add the
-first array to the result; `CreateCopy` with two values is rejected and changes nothing -/
-example : run Gen.poscDb (opFuncSimple Gen.poscDb) []
-      [.make (.init .none 3 (.valFirst (some (.sized ⟨.list, [1, 2, 3]⟩)) (some uM) none)),
-       .op 0 (.changingIndex (-1) (.scalar ⟨.simple cLength uCm, 50⟩) true),
-       .op 1 (.arith .sum (.other 0)),
-       .op 2 (.createCopy (some (.sized ⟨.list, [1, 2]⟩)) none none)]
-    = [⟨.none, ⟨3, ⟨.list, [1, 2, 3]⟩, .simple cLength uM⟩⟩,
-       ⟨.none, ⟨3, ⟨.tuple, [100, 200, 50]⟩, .simple cLength uCm⟩⟩,
-       ⟨.none, ⟨3, ⟨.list, [200, 400, 350]⟩, .simple cLength uCm⟩⟩] := by decide +kernel
-
-/-- `IndexAsScalar(-3)` in centimetres; index 3 is out of range -/
-example : indexAsScalar Gen.poscDb ⟨.none, ⟨3, ⟨.list, [1, 2, 3]⟩, .simple cLength uM⟩⟩ (-3)
-    (some (.simple cLength uCm)) = .ok ⟨.simple cLength uCm, 100⟩ := by decide +kernel
-example : indexAsScalar Gen.poscDb ⟨.none, ⟨3, ⟨.list, [1, 2, 3]⟩, .simple cLength uM⟩⟩ 3 none
-    = .error .index := by decide +kernel
-example : normIndex 3 (-3) = some 0 ∧ normIndex 3 (-4) = none ∧ normIndex 3 2 = some 2 ∧ normIndex 3 3 = none := by
-  decide
-
-/-- a curve over arrays of length 3, 3, 2: the shorter image is rejected and the curve keeps what it had -/
-example : (Curve.new ⟨0, .flat 3⟩ ⟨1, .flat 3⟩).toOption.map
-      (·.runSetters [.image ⟨2, .flat 2⟩, .domain ⟨0, .flat 3⟩])
-    = some ⟨⟨0, .flat 3⟩, ⟨0, .flat 3⟩⟩ := by decide
-example : Curve.new ⟨0, .flat 3⟩ ⟨1, .flat 2⟩ = .error .value := by decide
-
-/-- 4 flat values against 2 pairs: the same number of scalars but 4 points against 2 — rejected, by
-the constructor and by both setters of a valid 4-point curve; 2 flat values against 2 triples: accepted -/
-example : Shape.size (.flat 4) = Shape.size (.points 2 2) ∧
-    Curve.new ⟨0, .flat 4⟩ ⟨1, .points 2 2⟩ = .error .value ∧
-    Curve.new ⟨0, .points 2 2⟩ ⟨1, .flat 4⟩ = .error .value := by decide
-example : (Curve.new ⟨0, .flat 4⟩ ⟨1, .flat 4⟩).toOption.map
-      (·.runSetters [.domain ⟨2, .points 2 2⟩, .image ⟨2, .points 2 2⟩, .domain ⟨3, .points 4 3⟩])
-    = some ⟨⟨0, .flat 4⟩, ⟨3, .points 4 3⟩⟩ := by decide
-example : Curve.new ⟨0, .flat 2⟩ ⟨1, .points 2 3⟩ = .ok ⟨⟨0, .flat 2⟩, ⟨1, .points 2 3⟩⟩ := by decide
-
 end Examples
 
 end Barril.Fixed
